@@ -30,6 +30,14 @@ import (
 type ConcOp struct {
 	Kind  string `json:"kind"` // do | validate | cacheGet | execPlan | reset
 	Query int    `json:"query"`
+	Vars  int    `json:"vars,omitempty"` // index into c07Valuations
+}
+
+// c07Valuations: variable values for the requests that declare $s / $t (others ignore them);
+// different valuations of variable-driven @skip/@include make one shared plan build its
+// per-valuation variants on several goroutines at once.
+var c07Valuations = []map[string]interface{}{
+	nil, {"s": true}, {"s": false}, {"t": false}, {"s": true, "t": false}, {"s": false, "t": true},
 }
 
 type ConcCase struct {
@@ -46,6 +54,7 @@ var c07Queries = []string{
 	`{ l { i { a i { a ... on P { e } } } u { ... on P { p } } } }`,
 	`{ o { i { i { i { a } } } l { u { ... on O { nn } } } } }`,
 	`query($v: E = V2, $s: Boolean = true) { n(z: $v) a @skip(if: $s) e }`,
+	`query($s: Boolean = false, $t: Boolean = true) { i { a ... on O { x(y: 1) @include(if: $t) } ... on P { p @skip(if: $s) e } } e @skip(if: $s) ul { ... on O { a @include(if: $t) } ... on P { p } } }`,
 	`{ __schema { types { name possibleTypes { name } enumValues { name } } } }`,
 	`{ __type(name: "I") { possibleTypes { name } } __type2: __type(name: "E") { enumValues { name } } }`,
 	`mutation { set(x: 1) o { i { a } } }`,
@@ -54,7 +63,7 @@ var c07Queries = []string{
 }
 
 // sharedPlanQuery is the document behind the shared prepared plan.
-const sharedPlanQuery = `{ e i { a ... on O { x(y: 2) u { ... on P { e } } } ... on P { p e } } ul { ... on O { a } ... on P { p } } n(x: {b: "p"}, z: V2) }`
+const sharedPlanQuery = `query($s: Boolean = false, $t: Boolean = true) { e @skip(if: $s) i { a ... on O { x(y: 2) @include(if: $t) u { ... on P { e } } } ... on P { p e @skip(if: $s) } } ul { ... on O { a } ... on P { p @include(if: $t) } } n(x: {b: "p"}, z: V2) }`
 
 // c07Model is the kitchen schema with one covariant interface implementation (P.i: P where
 // the interface says I): checking it makes NewSchema fill the possible-type table for I, the
@@ -83,9 +92,10 @@ func c07Instance() (*build.Built, *ref.World, error) {
 func c07Run(b *build.Built, w *ref.World, pc *graphql.PlanCache, plan *graphql.Plan, op ConcOp) string {
 	ctx := build.WithSession(context.Background(), &build.Session{W: w})
 	q := c07Queries[op.Query%len(c07Queries)]
+	vars := c07Valuations[op.Vars%len(c07Valuations)]
 	switch op.Kind {
 	case "do":
-		return respJSON(graphql.Do(graphql.Params{Schema: b.Schema, RequestString: q, Context: ctx}))
+		return respJSON(graphql.Do(graphql.Params{Schema: b.Schema, RequestString: q, VariableValues: vars, Context: ctx}))
 	case "validate":
 		doc, err := parseText(q)
 		if err != nil {
@@ -99,9 +109,16 @@ func c07Run(b *build.Built, w *ref.World, pc *graphql.PlanCache, plan *graphql.P
 		if pr.Plan == nil {
 			return respJSON(&graphql.Result{Errors: pr.Errors})
 		}
-		return respJSON(graphql.ExecutePlan(pr.Plan, graphql.ExecuteParams{Schema: b.Schema, Args: pr.SynthArgs, Context: ctx}))
+		args := map[string]interface{}{}
+		for k, v := range vars {
+			args[k] = v
+		}
+		for k, v := range pr.SynthArgs {
+			args[k] = v
+		}
+		return respJSON(graphql.ExecutePlan(pr.Plan, graphql.ExecuteParams{Schema: b.Schema, Args: args, Context: ctx}))
 	case "execPlan":
-		return respJSON(graphql.ExecutePlan(plan, graphql.ExecuteParams{Schema: b.Schema, Context: ctx}))
+		return respJSON(graphql.ExecutePlan(plan, graphql.ExecuteParams{Schema: b.Schema, Args: vars, Context: ctx}))
 	case "reset":
 		pc.Reset()
 		return "reset"
@@ -205,7 +222,7 @@ func TestC07(t *testing.T) {
 		for i := 0; i < g; i++ {
 			var script []ConcOp
 			for j, n := 0, gen.Intn(rt, 3, 10, "ops"); j < n; j++ {
-				script = append(script, ConcOp{Kind: kinds[gen.Uniform(rt, len(kinds), "kind")], Query: gen.Uniform(rt, len(c07Queries), "query")})
+				script = append(script, ConcOp{Kind: kinds[gen.Uniform(rt, len(kinds), "kind")], Query: gen.Uniform(rt, len(c07Queries), "query"), Vars: gen.Uniform(rt, len(c07Valuations), "vars")})
 			}
 			c.Scripts = append(c.Scripts, script)
 		}
